@@ -63,6 +63,8 @@ def obj_binary(name):
         return lambda x: onemax(x) ** 2 - 3.0 * onemax(x) + 7.0
     if name == "offset":  # improvements that are tiny RELATIVE to the values (1 in 1e12)
         return lambda x: onemax(x) + 1e12
+    if name == "offset6":  # integer-valued, differences of 1 in 1e6 (within numpy.isclose's default tolerance)
+        return lambda x: onemax(x) + 1e6
     raise KeyError(name)
 
 
@@ -115,6 +117,8 @@ def obj_tree(name):
         return lambda trees: size(trees) ** 2 - 5.0 * size(trees)
     if name == "offset":
         return lambda trees: size(trees) + 1e12
+    if name == "offset6":
+        return lambda trees: size(trees) + 1e6
     raise KeyError(name)
 
 
@@ -441,6 +445,9 @@ def configs(tier: str, seed: int, classes=None, extra_stop=True):
             out.append((cn, dict(base, objective="plateau", no_increase_num=2, iters=12, seed=seed * 100 + 51)))
             out.append((cn, dict(base, objective="ties", no_increase_num=1, iters=6, seed=seed * 100 + 52, elitism=False)))
             out.append((cn, dict(base, objective="ties", no_increase_num=5, iters=4, seed=seed * 100 + 57)))
+            # BOTH rules configured: the target is out of reach, stagnation must stop the run
+            out.append((cn, dict(base, objective="ties", no_increase_num=2, optimal_value=1e9, termination_error_value=1.0, iters=9, seed=seed * 100 + 58)))
+            out.append((cn, dict(base, objective="plateau", no_increase_num=3, optimal_value=-1e9, termination_error_value=0.5, minimization=True, iters=14, seed=seed * 100 + 59)))
             if cn in BINARY:
                 out.append((cn, dict(base, objective="onemax", optimal_value=10, termination_error_value=3.0, iters=15, seed=seed * 100 + 53)))
                 out.append((cn, dict(base, objective="onemax", optimal_value=0, termination_error_value=4.5, minimization=True, iters=15, seed=seed * 100 + 54)))
